@@ -22,6 +22,8 @@ func propC08(r *Report, tier string) {
 	ruleLookAheadGuard(r, "K12-lookahead-guard")
 	ruleBooleanCursorSiblings(r, "K12-boolean-cursor-siblings")
 	ruleTFRGlobalIDs(r, "K8-tfr-global-ids")
+	ruleParallelSlotsUpdatedTogether(r, "K14-parallel-slots", "search/searcher", "NestedConjunctionSearcher", "currs", []string{"currAncestors", "currKeys"})
+	ruleExhaustionSticky(r, "K6-exhaustion-sticky")
 	in := findIntroducers(r.P)
 	ruleOffsetsAlignment(r, "K14-offsets-alignment", snapshotConstructors(r, in))
 	r.Floor("K13-searcher-methods", 10)
